@@ -35,8 +35,11 @@ def normaliseCrLf : Str → Str
   | c :: rest => c :: normaliseCrLf rest
   | [] => []
 
+/-- a carriage return left after `normaliseCrLf` is a line ending of its own (the first of "\r\r\n"): it is counted, and compiled, as "\n" -/
+def crToLf (s : Str) : Str := s.map fun c => if c = '\r' then '\n' else c
+
 def paddedSource (markdown : Str) (pos : Nat) (fenced : Bool) (source : Str) : Str :=
-  List.replicate ((offsetToLineCol (normaliseCrLf markdown) pos).1 - 1 + (if fenced then 1 else 0)) '\n' ++ source
+  List.replicate ((offsetToLineCol (crToLf (normaliseCrLf markdown)) pos).1 - 1 + (if fenced then 1 else 0)) '\n' ++ crToLf source
 
 -- ---------------------------------------------------------------- title and servings
 /-- match a word case-insensitively (regex `(?i)` on ASCII letters) at the start of `s` -/
